@@ -43,6 +43,8 @@ fn main() {
         flavors: arg(&args, "--flavors"),
         quick_n: arg(&args, "--quick-n").and_then(|s| s.parse().ok()),
         thorough_n: arg(&args, "--thorough-n").and_then(|s| s.parse().ok()),
+        profile: arg(&args, "--profile"),
+        mode: arg(&args, "--mode"),
     };
     let t0 = std::time::Instant::now();
     engines::dispatch(&engine, &ctx, rng, &mut rep);
